@@ -8,38 +8,44 @@ import WhatwgUrl.Generated.Facts
 namespace WhatwgUrl.Props.C20
 open WhatwgUrl WhatwgUrl.Impl
 
-/-! The regenerated inventory (`costSitesTyped` in harness/facts.go, on go/types): inside a loop body — or, one call
-level down, at the top level of a function of the package that is called from inside a loop — every string built by `+=`,
+/-! The regenerated inventory (`costSitesTyped` in harness/facts.go, on go/types): inside a loop body — or, up to four calls
+down, at the top level of a function of the package that is called from inside that loop — every string built by `+=`,
 every conversion that copies its operand, every call of a function whose cost is linear in an operand. Numeric `+=` is
 not a site. The theorems are ∀-statements over the current inventory: a site that disappears changes nothing, a NEW site
 must be classified here (or the obligation breaks and the cost search looks for a super-linear family). -/
 
 /-- sites whose cost per execution is not constant but is paid for by the input consumed since the site last ran (the
-    buffer is reset afterwards), or that run a bounded number of times per parse — amortised linear -/
+    buffer is reset afterwards), or that run a bounded number of times per parse — amortised linear. A site reached
+    through calls from inside a loop is attributed to the function whose loop it is. -/
 def amortisedSites : List (String × String) := [
-  ("parser.BasicParser", "call newInputString"),                              -- credentials: once per '@', over the buffer collected since the last '@'
-  ("parser.BasicParser", "copying conversion []rune(buffer.String())"),       -- authority -> host: once, over the buffer
-  ("parser.parseHost", "call newInputString"),                                -- once per host
-  ("newInputString", "copying conversion []rune(s)"),                         -- the operand of the two calls above
-  ("SearchParams.init", "call strings.ReplaceAll"),                           -- once per parameter, over that parameter
-  ("SearchParams.init", "call strings.SplitN"),                               -- once per parameter, over that parameter
-  ("parser.DecodePercentEncoded", "copying conversion []byte(s)"),           -- once per call, over the text being decoded (a host, a parameter)
-  ("decodePercentEncoded", "copying conversion []byte(s)"),                   -- canonicalizer: once per component and decoding round
-  ("parser.PercentEncodeString", "copying conversion []rune(s)"),             -- once per call, over the text being encoded
-  ("parser.parseOpaqueHost", "copying conversion []rune(input[:])"),          -- bounded slice: at most 3 bytes after a '%' (repaired F16)
-  ("inputString.remainingFromPointer", "copying conversion string(i.runes[:])"),  -- file / file-slash state: at most twice per parse
-  ("inputString.remainingStartsWith", "copying conversion string(i.runes[:])"),   -- states visited once per parse; IPv6 "::" test: at most 8 pieces
-  ("isSingleDotPathSegment", "call strings.ToLower"),                         -- once per path segment, over that segment
-  ("isDoubleDotPathSegment", "call strings.ToLower")]                         -- once per path segment, over that segment
+  ("parser.BasicParser", "call newInputString"),                         -- credentials: once per '@', over the buffer collected since the last '@'; host: once per host
+  ("parser.BasicParser", "copying conversion []rune(buffer.String())"),  -- authority -> host: once, over the buffer
+  ("parser.BasicParser", "copying conversion []rune(s)"),                -- the operand of newInputString / of the encoder called on a buffer
+  ("parser.BasicParser", "call strings.Split"),                          -- IPv4 / ends-in-a-number: once per host, over the host
+  ("parser.BasicParser", "call strings.ToLower"),                        -- dot-segment tests: once per path segment, over that segment
+  ("parser.BasicParser", "copying conversion []byte(s)"),                -- percent-decoding a host: once per host
+  ("parser.BasicParser", "copying conversion string(bb)"),               -- encoding override of a buffer: once per component
+  ("parser.BasicParser", "copying conversion string(i.runes[:])"),       -- remainingStartsWith/FromPointer: states visited a bounded number of times per parse; IPv6 "::" test: at most 8 pieces
+  ("parser.parseHost", "copying conversion []rune(s)"),                  -- once per host
+  ("SearchParams.init", "call strings.ReplaceAll"),                      -- once per parameter, over that parameter
+  ("SearchParams.init", "call strings.SplitN"),                          -- once per parameter, over that parameter
+  ("SearchParams.init", "copying conversion []byte(s)"),                 -- decoding: once per name / value
+  ("repeatedDecode", "copying conversion []byte(s)"),                    -- canonicalizer: once per decoding round; each round but the last shortens the text (C17_decode_shortens)
+  ("parser.parseOpaqueHost", "copying conversion []rune(input[:])")]     -- bounded slice: at most 3 bytes after a '%' (repaired F16)
 
 /-- sites that copy a piece of bounded size (at most 3 code points / 12 bytes / 39 characters) -/
 def constantSites : List (String × String) := [
-  ("IPv6Addr.String", "string += output"),                                    -- 8 pieces
-  ("parser.BasicParser", "copying conversion string(?)"),                     -- one byte
-  ("parser.DecodePercentEncoded", "copying conversion string(bytes[:])"),     -- three bytes
-  ("parser.percentEncodeRune", "copying conversion string(percentEncoded[:])"), -- the escape of one code point
-  ("percentEncodeByte", "copying conversion string(percentEncoded)"),         -- three bytes
-  ("remainingIsInvalidPercentEncoded", "copying conversion string(runes[:])")] -- at most three code points
+  ("IPv6Addr.String", "string += output"),                                        -- 8 pieces
+  ("parser.BasicParser", "copying conversion string(?)"),                         -- one byte
+  ("parser.BasicParser", "copying conversion string(percentEncoded[:])"),         -- the escape of one code point
+  ("parser.BasicParser", "copying conversion string(runes[:])"),                  -- at most three code points
+  ("parser.DecodePercentEncoded", "copying conversion string(bytes[:])"),         -- three bytes
+  ("parser.PercentEncodeString", "copying conversion string(percentEncoded[:])"), -- the escape of one code point
+  ("SearchParams.QueryEscape", "copying conversion string(percentEncoded[:])"),   -- the escape of one code point
+  ("parser.parseOpaqueHost", "copying conversion string(percentEncoded[:])"),     -- the escape of one code point
+  ("parser.parseOpaqueHost", "copying conversion string(runes[:])"),              -- at most three code points
+  ("percentEncodeString", "copying conversion string(percentEncoded)"),           -- three bytes
+  ("percentEncode", "copying conversion string(percentEncoded)")]                 -- three bytes
 
 /-- every site of the current source is classified -/
 theorem C20_sites_classified : ∀ s ∈ Generated.costSitesUrl ++ Generated.costSitesCanon, s ∈ amortisedSites ∨ s ∈ constantSites := by decide +kernel
